@@ -8,8 +8,11 @@
  * secp256k1_surjectionproof_csprng_next: ORACLE (SHA-256 rejection sampler): result < rand_max. */
 #include "assumed.h"
 #include "src/secp256k1.c"
+#ifndef IB_TAGS
+#define IB_TAGS 8
+#endif
 #ifndef IB_DRAWS
-#define IB_DRAWS 4
+#define IB_DRAWS 3
 #endif
 size_t g_cs_n;
 /* contract attached after the definition: the csprng type is declared inside the module source */
@@ -27,7 +30,7 @@ void h_sjp_initialize(void) {
     INPUT(size_t, n_tags); INPUT(size_t, n_use); INPUT(size_t, n_iter); INPUT(secp256k1_fixed_asset_tag, outtag); INPUT_ARR(unsigned char, seed, 32);
     INPUT(size_t, gk); INPUT(int, nullsel);
     secp256k1_fixed_asset_tag *tags; size_t idx = 0, t, pop = 0; int ret;
-    __CPROVER_assume(n_tags <= 300 && n_use <= 2 && n_iter <= 2 && gk < 32);
+    __CPROVER_assume(n_tags <= IB_TAGS && n_use <= 2 && n_iter <= 2 && gk < 32);
     tags = malloc(n_tags ? n_tags * sizeof(secp256k1_fixed_asset_tag) : 1); __CPROVER_assume(tags != NULL);
     verif_ctx_init(&ctx);
     ctx.hash_ctx.fn_sha256_compression = secp256k1_sha256_transform;
